@@ -172,7 +172,7 @@ func (hsScenario) Run(s *simrt.Sim, plan interface{}, opts map[string]string) (*
 			ret[0], returned[0] = simrt.Now(), true
 			simrt.Send(hs, 0)
 		})
-		bound := time.NewTimer(confC.InitializeTimeout + 20*time.Second)
+		bound := simrt.NewTimer(confC.InitializeTimeout + 20*time.Second)
 		for got := 0; got < 2; {
 			i, _, _ := simrt.Select(false, simrt.RecvCase(hs), simrt.RecvCase(bound.C))
 			if i != 0 {
